@@ -4,12 +4,14 @@ CONSTANTS
   Roles = {"client","server"}
   AuthLevels = {"REQUIRED","PREFERRED","OPTIONAL","NEVER"}
   EncLevels = {"REQUIRED","PREFERRED","OPTIONAL","NEVER"}
-  IntegChoices = {"SAME"}
+  IntegChoices = {"SAME","REQUIRED"}
   MethodLists <- ListsQuick
   AllMethods = {"C","P","K"}
   Runnable = {"C"}
   PeerLevels = {"OPTIONAL","REQUIRED"}
   Modes = {"fresh","resumed"}
+  PolicySources = {"base","hook"}
+  IntegScope = "serverFresh"
   EstChoices = {"Honest","OmitECDH","TruncateECDH","NoCommonCipher"}
   Deviations = {"AnswerAuthNo","AnswerEncNo","OmitECDH","TruncateECDH","RandomECDH","ForeignECDH","NoCommonCipher","SelectUnofferedBit","SelectSeveralBits","SelectZero","ReportDenied","PostAuthDenied","PostAuthInClear","ResumeKeyless","ReplyWithoutKey"}
   MaxDev = 1
